@@ -96,9 +96,15 @@ reg("C17", ["E2"], E2T,
     "Bounded model checking (Kani/CBMC) of the balance and amount arithmetic over all 64-bit inputs, including every amount decodable from the wire (i64::MIN): "
     "no panic/overflow, success exactly when the i128 reference result is in range, documented error variants, and scalar encoding = field embedding / additive homomorphism (canonical-integer Scalar stand-in).",
     "trusted base: Kani's translation of MIR, CBMC+cadical; contract assumed of bls12_381::Scalar: from(u64) is the ring embedding and +,-,neg are the field operations", "DESIGN.md section 4, C17")
-reg("C15x", ["E2"], E2T,
-    "Kani part: balances decoded from the wire are <= 2^63-1; amounts and balances round-trip exactly (E1 part to follow).",
-    "trusted base: Kani's translation of MIR, CBMC+cadical", "DESIGN.md section 4, C15")
+reg("C15", ["E1", "E2"], E1T + " + " + E2T,
+    "Bounded model checking: for every serialisable type of both crates (table checked against a scan of the sources at every run) an honest value round-trips with the decode forced for all atom values and an identical re-encoding; "
+    "on a fully symbolic image every type invariant is a validity query on the accepting path (no identity generator / key element / sigma1, no zero secret scalar, nonce != close tag, lock = canonical digest of the secret), "
+    "every decode-time check, flipped, makes decoding fail, and every atom replaced by an invalid-encoding token is refused; balances decoded from 8 arbitrary bytes are <= 2^63-1 (Kani).",
+    TB + "; the channel-id text form (Display/FromStr through base64 and fmt) is NOT covered (Kani did not finish in 600 s); atom decoders of bls12_381 are external", "DESIGN.md section 4, C15")
+reg("C16", ["E1", "E2"], E2T + " + " + E1T,
+    "Kani: the three generic container codecs of serde.rs with a toy element, symbolic element count (<= N+2), size hint (all of Option<usize>), element bytes and failing position: no panic, Ok exactly for N good elements, Vec capacity bounded. "
+    "E1 driver: every composite type decoded from images with every length prefix / tag byte mutated, truncated at every field boundary and extended, under catch_unwind with allocation metering.",
+    "trusted base: Kani/CBMC; atom decoders of bls12_381 on arbitrary bytes are external and assumed total; N > 5 for the generic visitors outside the bound", "DESIGN.md section 4, C16")
 
 
 def evidence(pid, tier, seed, spec, parts, findings, violations, known_hits, inconclusive, wall):
